@@ -98,10 +98,10 @@ core::marker::PhantomData
             constant_length matches Some(l) ==> (exists|a: u32, x: NodeBytes| #![trigger x.aval(), ikey(index, a)] rtxn.view().contains_key(ikey(index, a)) && x.aval() == rtxn.view()[ikey(index, a)] && x.blen() == l),
             old(candidates)@.len() > 0 && selected_items@.len() == 0 ==> candidates@ =~= old(candidates)@,
         ensures
-            candidates@ =~= Set::<u32>::empty() || leafs.keys().len() >= 200,
+            candidates@ =~= Set::<u32>::empty() || leafs.keys().len() >= min_items,
 //@hint before <<<Ok((>>>
         proof {
-            if old(candidates)@.len() > 0 && selected_items@.len() == 0 {
+            if old(candidates)@.len() > 0 && selected_items@.len() == 0 && min_items >= 1 {
                 assert(candidates@ =~= old(candidates)@);
                 assert(leafs.keys().len() == 0);
                 assert(candidates@.len() == 0);
